@@ -226,11 +226,17 @@ func (w *world) checkFaultConservation() {
 		if len(v.last) < refformat.PageSize {
 			continue // creation failed half-way: nothing could be recorded in it
 		}
-		if v.err != nil {
-			w.fail("well-formed", "%s is damaged after a failed call: %v", filepath.Base(v.path), v.err)
+		dec, err := v.dec, v.err
+		if err != nil && len(v.last)%refformat.PageSize != 0 {
+			// A short extension write legitimately leaves a partial last page;
+			// nothing can have been recorded in it.
+			dec, err = refformat.Decode(v.last[:len(v.last)/refformat.PageSize*refformat.PageSize])
+		}
+		if err != nil {
+			w.fail("well-formed", "%s is damaged after a failed call: %v", filepath.Base(v.path), err)
 			return
 		}
-		for n, val := range v.dec.Counts {
+		for n, val := range dec.Counts {
 			pers[n] += val
 		}
 	}
